@@ -40,6 +40,9 @@ def run(ctx) -> None:
     from . import c20
 
     ctx.reuse("C08.formula", c20.guard_table)
+    from . import c19
+
+    ctx.reuse("C08.helpers", c19.check)
     # the well ranges of a reagent distribution are positions of the same numbering (whole source column, first..last destination)
     ctx.reuse("C08.device-hook", c01.pair_distribute, "C01.pair-distribute")
     ctx.guard("C08.regex", regex_agreement)
@@ -642,7 +645,18 @@ def grid_construction(ctx, rule: str = "C08.id-template") -> None:
             ctx.rep.check(ok, rule, f"{f.qualname}/_wells", "wells[r, c]: rows nested outside columns, every row x column",
                           "the well-ID array is not built as [[id(row, column) for column in column_ids] for row in row_ids]", where=f.where(node.ast))
     for k, v in found.items():
-        if not v:
+        if not v and k == "_wells":
+            # bound together with the other tables (a helper that returns all three, a tuple assignment): decide on the evaluated table
+            from . import init_model
+
+            ev_, det_ = init_model.verdict(ctx, "_wells")
+            if ev_ == "holds":
+                ctx.rep.holds(rule, f"{f.qualname}/_wells[evaluated]", det_, where=w)
+            elif ev_ == "refuted":
+                ctx.rep.refuted(rule, f"{f.qualname}/_wells[evaluated]", det_, where=w)
+            else:
+                ctx.rep.inconclusive(rule, f"{f.qualname}/_wells", "assignment not found; " + det_, where=w)
+        elif not v:
             ctx.rep.inconclusive(rule, f"{f.qualname}/{k}", "assignment not found")
     # helpers in transform.py
     for name in ("make_well_array", "make_well_index_dict"):
